@@ -1649,7 +1649,7 @@ class FortranFile:
 
             elif obj_type == "import":
                 obj_info.line_number = line_no
-                obj_info.mod_name += str(counters["import"])
+                obj_info.mod_name += str(counters["imports"])
                 file_ast.add_use(obj_info)
                 counters["imports"] += 1
                 log.debug("%s !!! IMPORT - Ln:%d", line, line_no)
